@@ -46,7 +46,7 @@ class Ctx:
         self.violations = []          # (replay_path, nofail)
         self.known_seen = []
         self.cov = {}
-        self.rundir = BUILD / "run" / prop
+        self.rundir = BUILD / "run" / ("%s-%d" % (prop, os.getpid()))     # per process: concurrent runs do not collide
         shutil.rmtree(self.rundir, ignore_errors=True)
         self.rundir.mkdir(parents=True, exist_ok=True)
         self.tree = None
@@ -58,6 +58,8 @@ class Ctx:
     def cleanup(self):
         subprocess.run(["chmod", "-R", "u+rwx", str(self.scratch)], stderr=subprocess.DEVNULL)
         shutil.rmtree(self.scratch, ignore_errors=True)
+        if not self.violations and os.environ.get("VERIF_KEEP_RUNDIR") != "1":
+            shutil.rmtree(self.rundir, ignore_errors=True)
 
     # ---------------- implementation side ----------------
     def build_tree(self, tools=False, drivers=()):
